@@ -996,6 +996,31 @@ pub fn check_conc(
         }
       }
     }
+    // an op with an armed collaborator fault that does not reach its fault
+    // point completes like the plain op: the same orders with every fault
+    // disarmed contribute their answers too (a fired fault leaves nothing
+    // behind, so these are the answers a sequential caller can get)
+    if scn.threads.iter().flatten().any(|o| matches!(o.kind, OpKind::ChildFault { .. })) {
+      let mut plain = scn.clone();
+      for th in plain.threads.iter_mut() {
+        for o in th.iter_mut() {
+          o.kind = o.kind.without_fault().clone();
+        }
+      }
+      for order in sequential_family(&plain) {
+        let seq = run_sequential(&plain, knobs.shards, &order, cfg.consume, false);
+        for (t, i) in &order {
+          let a = &seq.answers[*t][*i];
+          if a.is_panic() || matches!(a, Answer::NotRun) {
+            continue;
+          }
+          let op = &plain.threads[*t][*i];
+          let attribution = ascii[op.obj] && !gated && !fragile[op.obj];
+          allowed[*t][*i].insert(key_of(a, &op.kind, &texts[op.obj].0, attribution, attribution));
+        }
+      }
+      counters.inc("probe:fault_free_control_family");
+    }
     for t in allowed.iter() {
       for s in t {
         if s.len() > 1 {
